@@ -732,7 +732,13 @@ class AbsMachine:
                     results.append(("true" if t else "false", e2))
                 continue
             if node.kind == "with":
-                self.ev(what, e2, chosen)
+                vals = self.ev(what, e2, chosen)
+                # `with <ctx> as name`: the name refers to what the (modelled) context expression gave — an abstract
+                # object stands for "the thing entered"; anything else stays unknown
+                for i_, item in enumerate(a.items):  # type: ignore[attr-defined]
+                    if item.optional_vars is not None:
+                        v_ = vals[i_] if isinstance(vals, tuple) and i_ < len(vals) else UNKNOWN
+                        self._bind(item.optional_vars, v_ if isinstance(v_, Obj) else UNKNOWN, e2)
                 results.append(("next", e2))
                 continue
             # stmt
